@@ -322,6 +322,16 @@ def run_history(rm, M0, ops, sparse, cls=None, sample=False, label="history"):
         if cur.shape[0] == 0:
             REC.notes["unspecified:operation on 0x0 matrix"] += 1
             break
+        if il is not None and len(il) >= 2 and (step + n) % 4 == 1:
+            # history: a threaded call that is refused (index list one group short of the matrix: the functions assert on that) directly
+            # before the next real step; nothing of the refused call may survive into it
+            try:
+                bad = [list(g) for g in il[:-1]]
+                (rm.merge_matrix_cells if kind == "m" else rm.delete_rate_cells)(cur.copy(), [[bad[0][0], bad[-1][0]]] if kind == "m" else [bad[0][0]],
+                                                                                   index_list=bad)
+                REC.notes["a call with an index list shorter than the matrix was not refused (not judged)"] += 1
+            except Exception:
+                REC.classes["refused call before a threaded step"] += 1
         try:
             # the lists in the forms callers use: lists of Python ints, numpy integer arrays (np.where output), tuples
             form = (step + len(ops) + n) % 3
